@@ -73,6 +73,11 @@ def exec_PROG(t):
         if rng.random() < 0.15 and n <= 16:      # scaled objects only where the affine limits are exact doubles (C17's domain)
             cfg['scale'] = rng.choice([2, 0.5, -1, 3]); cfg['bias'] = rng.choice([0, 1, -2, 0.25])
         v = vals[0] if k == 0 else (np.array(vals).reshape(2, 2) if k == 4 and rng.random() < 0.5 else vals)
+        how = rng.choice(['pos', 'pos', 'dtype', 'nint'])
+        if how == 'dtype':
+            return Fxp(v, dtype='fxp-%s%d/%d' % ('s' if s else 'u', n, f), **cfg)
+        if how == 'nint':
+            return Fxp(v, signed=s, n_int=n - f - int(s), n_frac=f, **cfg)
         return Fxp(v, s, n, f, **cfg)
     try:
         emit(newobj())
@@ -97,7 +102,20 @@ def exec_PROG(t):
                 elif op == 'resize':
                     s2, n2, f2 = rand_fmt(rng, maxw)
                     if abs(f2 - x.n_frac) <= 30 and not x.scaled:
-                        x.resize(s2, n2, f2); emit(x)
+                        how = rng.choice(['pos', 'pos', 'dtype', 'dtype', 'nint_nfrac', 'nword_nint'])
+                        i2 = n2 - f2 - int(s2)
+                        if how == 'pos':
+                            x.resize(s2, n2, f2)
+                        elif how == 'dtype':
+                            sp = ['fxp-%s%d/%d' % ('s' if s2 else 'u', n2, f2)]
+                            if i2 >= 0 and f2 >= 0:
+                                sp += ['%s%d.%d' % (rng.choice(['S', 'Q'] if s2 else ['U', 'UQ']), i2, f2)]
+                            x.resize(dtype=rng.choice(sp))      # signedness comes from the string
+                        elif how == 'nint_nfrac':
+                            x.resize(signed=s2, n_int=i2, n_frac=f2)
+                        else:
+                            x.resize(signed=s2, n_word=n2, n_int=i2)
+                        emit(x)
                 elif op == 'like':
                     if not (x.scaled or y.scaled) and abs(y.n_frac - x.n_frac) <= 30:
                         emit(x.like(y))
